@@ -13,6 +13,7 @@ package main
 //     unless the field is declared immutable after initialisation or is protected by a sync.Once region.
 
 import (
+	"sort"
 	"fmt"
 	"go/types"
 	"strings"
@@ -48,7 +49,18 @@ func (e *Engine) interfere(st *State) {
 	if len(st.chanHeap) > 0 {
 		e.chanInterfere(st, nil)
 	}
+	var gnames []string
 	for name, gv := range e.cs.GhostVars {
+		// only the ghost state of the package under verification (and in a fixed order: the generated script must
+		// be the same on every run)
+		if e.rootC != nil && gv.Pkg != "" && gv.Pkg != e.rootC.Pkg {
+			continue
+		}
+		gnames = append(gnames, name)
+	}
+	sort.Strings(gnames)
+	for _, name := range gnames {
+		gv := e.cs.GhostVars[name]
 		if v, ok := st.ghost[name]; ok {
 			st.ghost[name] = Val{T: nil, L: []Term{e.ctx.Fresh("ghost_if_"+name, v.L[0].Sort)}, G: gv}
 		} else if e.rootFr != nil {
